@@ -60,3 +60,10 @@ MUTANTS += [
        "        partnames = [p.partname for p in self.iter_parts() if p.partname.startswith(prefix)]\n        taken = {pn.idx for pn in partnames}\n        for n in range(len(partnames) + 1, 0, -1):\n            if n not in taken:\n                return PackURI(tmpl % n)")],
      "R6.2 OpcPackage.next_partname:projection"),
 ]
+
+MUTANTS += [
+    ("rename-skipped-when-contiguous", "slide parts are not renamed when their numbers already are 1..n in any order",
+     [("src/pptx/parts/presentation.py", "        for idx, rId in enumerate(rIds):\n            slide_part = self.related_part(rId)\n            slide_part.partname = PackURI(\"/ppt/slides/slide%d.xml\" % (idx + 1))",
+       "        if sorted(self.related_part(rId).partname.idx for rId in rIds) == list(range(1, len(rIds) + 1)):\n            return\n        for idx, rId in enumerate(rIds):\n            slide_part = self.related_part(rId)\n            slide_part.partname = PackURI(\"/ppt/slides/slide%d.xml\" % (idx + 1))")],
+     "R6.3 PresentationPart.rename_slide_parts"),
+]
